@@ -323,7 +323,7 @@ def _draw_discovery_entries(vc):
     return entries
 
 
-@harness('NC2', targets='kopf._cogs.clients.scanning._read_version', props=['C19', 'C12', 'C08', 'C03', 'C05', 'C06', 'C13', 'C17', 'C18'],
+@harness('NC2', targets='kopf._cogs.clients.scanning._read_version', props=['C19', 'C12', 'C08', 'C03', 'C05', 'C06', 'C13', 'C17', 'C18', 'C07'],
          clauses=['one_discovery_request', 'one_resource_per_plain_entry', 'identity_from_the_arguments', 'names_from_the_entry',
                   'subresources_attached_to_their_parent', 'vanished_group_tolerated', 'other_failures_propagate'],
          canaries=['canary.never_empty', 'canary.never_fails', 'canary.no_subresources'],
@@ -483,7 +483,7 @@ class _Scan:
 
 
 @harness('NC3', targets=['kopf._cogs.clients.scanning._read_old_api', 'kopf._cogs.clients.scanning._read_new_apis',
-                         'kopf._cogs.clients.scanning.scan_resources'], props=['C19', 'C12', 'C08', 'C09', 'C13'],
+                         'kopf._cogs.clients.scanning.scan_resources'], props=['C19', 'C12', 'C08', 'C09', 'C13', 'C07'],
          clauses=['core.read_iff_requested', 'core.every_version_scanned', 'groups.read_iff_requested',
                   'groups.only_requested_groups_scanned', 'groups.every_version_scanned', 'groups.preferred_is_the_preferred_version',
                   'scan.both_apis_same_filter', 'union_of_everything_found', 'failures_propagate'],
